@@ -78,6 +78,9 @@ def c16_jacobi(ctx, form, history, iters):
     ctx.ensure("used object (after update_params to the same coefficients) == fresh object", eq(got_used, got_fresh))
     if iters == 1 or not ctx.sym:
         ctx.ensure("result is the Jacobi sweep for the coefficients and mesh size of THIS call", eq(got_fresh, jacobi_spec(x0, rhs, m, k, h, dim, iters)))
+    # a call that leaves an optional argument to its documented default gets THAT default, not what an earlier call passed
+    never = darsia.Jacobi(maxiter=iters, dim=dim, mass_coeff=m, diffusion_coeff=k)
+    ctx.ensure("a call omitting h after calls with an explicit h == the same call on an object never given an h", eq(used(x0, rhs), never(x0, rhs)))
     ctx.ensure("arguments untouched", True)
     ctx.ensure("no module- or class-level state written (frame)", frame.diff(before, frame.snapshot(FRAME_MODS)) == [])
 
